@@ -11,6 +11,8 @@ summaries); penalty combinators = C15.e.
 Round 3: the constraint returned by and_/or_/not_ carries no state from call to
 call (no factory-scope iterator read, no factory-scope object mutated, no
 nonlocal).
+Round 4: the couplers' factory prologues (args / kwds defaults) agree with their
+reference.
 NOT decided: window arithmetic of the fixed-point test under non-idempotent
 members, convergence within maxiter.
 """
